@@ -17,6 +17,7 @@ EXPLANATION = (
     "runs for each target and _phase_shift(post_phase_shift [- drift], *targets, basis=basis) is applied to the same targets and basis; _phase_shift increments every target id; multi-target pulses/targets with "
     "different references are rejected; Pulse.__init__ reduces phase and post_phase_shift modulo 2*pi. NOT decided: the emulated z-rotation (runtime physics). FLOW (added): the pulse re-created by the scheduler for the drift correction keeps amplitude, detuning and post_phase_shift; the post-phase-shift applied by _add is read from the pulse handed to the scheduler; the drift window of enable_eom_mode/modify_eom_setpoint starts where the EOM buffer starts. Round 3 (added): update_last_used runs whenever the pulse was added (not only with a post-phase-shift); every phase-reference table stored in _basis_ref is {q: _QubitRef() for q in ids} (one object per atom); every Pulse classmethod constructor uses each of its parameters in the pulse it returns."
     ' Round 5 (added): phase references are compared modulo 2pi within a tolerance, not as a set of raw floats (KNOWN finding, 3 sites); the drift window of enable_eom_mode may be read from the scheduled buffer slot.'
+    ' Round 6 (added after the fifth independent round of breaking changes): _PhaseTracker.__setitem__ records every assignment (no early return for an equal phase: the time of the last reference is part of the state).'
 )
 ASSUMPTIONS = ["formulas and guards are matched on the symbolic normal form (pstatic/sym.py)", "the order of two calls is the order in which the symbolic evaluation meets them (program order on every path)"]
 
